@@ -99,6 +99,42 @@ def ms_out(ann, seq, cmp_):
     return out, sorted(extra)
 
 
+def ms_events_of_run(ctx, f, r):
+    """events (one per input record) decoded from one run of obimicrosat on the file described by f"""
+    if r["timeout"] or r["rc"] != 0:
+        ctx.violation("X04.microsat.command_failed", "cmd", "%s: exit status %s%s on a well-formed input file: %s" %
+                      (f["cmdline"], r["rc"], " (timeout)" if r["timeout"] else "", r["err"][-600:]),
+                      {"cmdline": f["cmdline"], "failed_command": 1, "input": open(f["file"]).read()[:4000]})
+        return []
+    try:
+        recs = parse_records(r["out"])
+    except ValueError as ex:
+        raise vlib.Inconclusive("cannot decode the output of %s: %s" % (f["cmdline"], ex))
+    by = collections.defaultdict(list)
+    for rid, ann, seq, qual in recs:
+        by[rid].append((ann, seq, qual))
+    known = set()
+    evs = []
+    for rec in f["recs"]:
+        got = [(0, x) for x in by.get(rec["id"], [])] + [(1, x) for x in by.get(rec["id"] + "_cmp", [])]
+        known.update((rec["id"], rec["id"] + "_cmp"))
+        ev = {"kind": "ms", "origin": "cmd", "cmdline": f["cmdline"], "sc": rec["sc"], "id": rec["id"], "s": rec["s"], "q": rec["q"],
+              "umin": rec["umin"], "umax": rec["umax"], "cnt": rec["cnt"], "minlen": rec["minlen"], "flank": rec["flank"], "re": rec["re"],
+              "pan": 0, "panmsg": "", "n": len(got), "qout": [], "extra": [], "idout": "",
+              "out": {"ul": 0, "uc": 0, "slen": 0, "from": 0, "to": 0, "ms": "", "unit": "", "norm": "", "orient": "", "left": "", "right": "", "seq": "", "cmp": 0}}
+        if got:
+            cmp_, (ann, seq, qual) = got[0]
+            ev["out"], ev["extra"] = ms_out(ann, seq, cmp_)
+            ev["qout"] = qual if (qual is not None and rec["q"]) else []
+            ev["idout"] = rec["id"] + ("_cmp" if cmp_ else "")
+        evs.append(ev)
+    stray = [rid for rid in by if rid not in known]
+    if stray:
+        ctx.violation("X04.microsat.stray_record", "cmd", "%s writes records that are not in the input: %s" % (f["cmdline"], stray[:5]),
+                      {"cmdline": f["cmdline"], "failed_command": 1, "stray": stray[:20]})
+    return evs
+
+
 def ms_command_events(ctx, bindir, nfiles, per, maxlen):
     exe = os.path.join(bindir, "obimicrosat")
     d = ctx.path("msfiles")
@@ -118,42 +154,94 @@ def ms_command_events(ctx, bindir, nfiles, per, maxlen):
     res = ctx.run_many(jobs, timeout=120)
     evs = []
     for f, r in zip(files, res):
-        if r["timeout"] or r["rc"] != 0:
-            ctx.violation("X04.microsat.command_failed", "cmd", "%s: exit status %s%s on a well-formed input file: %s" %
-                          (f["cmdline"], r["rc"], " (timeout)" if r["timeout"] else "", r["err"][-600:]),
-                          {"cmdline": f["cmdline"], "input": open(f["file"]).read()[:4000]})
-            continue
-        try:
-            recs = parse_records(r["out"])
-        except ValueError as ex:
-            raise vlib.Inconclusive("cannot decode the output of %s: %s" % (f["cmdline"], ex))
-        by = collections.defaultdict(list)
-        for rid, ann, seq, qual in recs:
-            by[rid].append((ann, seq, qual))
-        known = set()
-        for rec in f["recs"]:
-            got = [(0, x) for x in by.get(rec["id"], [])] + [(1, x) for x in by.get(rec["id"] + "_cmp", [])]
-            known.update((rec["id"], rec["id"] + "_cmp"))
-            ev = {"kind": "ms", "origin": "cmd", "cmdline": f["cmdline"], "sc": rec["sc"], "id": rec["id"], "s": rec["s"], "q": rec["q"],
-                  "umin": rec["umin"], "umax": rec["umax"], "cnt": rec["cnt"], "minlen": rec["minlen"], "flank": rec["flank"], "re": rec["re"],
-                  "pan": 0, "panmsg": "", "n": len(got), "qout": [], "extra": [], "idout": "",
-                  "out": {"ul": 0, "uc": 0, "slen": 0, "from": 0, "to": 0, "ms": "", "unit": "", "norm": "", "orient": "", "left": "", "right": "", "seq": "", "cmp": 0}}
-            if got:
-                cmp_, (ann, seq, qual) = got[0]
-                ev["out"], ev["extra"] = ms_out(ann, seq, cmp_)
-                ev["qout"] = qual if (qual is not None and rec["q"]) else []
-                ev["idout"] = rec["id"] + ("_cmp" if cmp_ else "")
-            evs.append(ev)
-        stray = [rid for rid in by if rid not in known]
-        if stray:
-            ctx.violation("X04.microsat.stray_record", "cmd", "%s writes records that are not in the input: %s" % (f["cmdline"], stray[:5]),
-                          {"cmdline": f["cmdline"], "stray": stray[:20]})
+        evs += ms_events_of_run(ctx, f, r)
     return evs
 
 
-def ks_command_events(ctx, bindir, nsets, maxlen):
+def ms_rerun(ctx, bindir, ev):
+    """the command of a recorded event, run again on that record alone (options spelled out)"""
+    path = ctx.path("one." + ("fastq" if ev["q"] else "fasta"))
+    with open(path, "w") as f:
+        if ev["q"]:
+            f.write("@%s\n%s\n+\n%s\n" % (ev["id"], ev["s"], "".join(chr(33 + v) for v in ev["q"])))
+        else:
+            f.write(">%s\n%s\n" % (ev["id"], ev["s"]))
+    argv = ["--min-unit-length", str(ev["umin"]), "--max-unit-length", str(ev["umax"]), "--min-unit-count", str(ev["cnt"]),
+            "--min-length", str(ev["minlen"]), "--min-flank-length", str(ev["flank"])] + ([] if ev["re"] else ["--not-reoriented"])
+    fd = {"file": path, "argv": argv, "cmdline": "obimicrosat " + " ".join(argv) + " " + os.path.basename(path),
+          "recs": [{k: ev[k] for k in ("sc", "id", "s", "q", "umin", "umax", "cnt", "minlen", "flank", "re")}]}
+    r = ctx.run_many([{"argv": [os.path.join(bindir, "obimicrosat")] + argv + [path]}], timeout=120)[0]
+    return ms_events_of_run(ctx, fd, r)
+
+
+def ks_jobs(bindir, sc, refs_file, queries_file, k):
+    """the command lines run for one scenario: (origin, selfmode, argv, cmdline)"""
     count = os.path.join(bindir, "obikmersimcount")
     match = os.path.join(bindir, "obikmermatch")
+    base = ["-r", refs_file, "-k", str(sc["k"])] + (["-S"] if sc["sp"] else [])
+    lim = ["-M", str(sc["mo"])] if sc["mo"] != -1 else []
+    thr = ["-m", str(sc["minc"])] if (sc["minc"] != 1 or k % 2) else []
+    cpu = ["--max-cpu", str(sc["w"])]
+    out = [("count", 0, [count] + base + lim + thr + cpu + [queries_file], "obikmersimcount " + " ".join(base[2:] + lim + thr + cpu) + " -r refs queries"),
+           ("count", 1, [count] + base + lim + thr + cpu + ["--self"], "obikmersimcount " + " ".join(base[2:] + lim + thr + cpu) + " -r refs --self")]
+    if sc["sc"] in ("family", "random"):
+        out.append(("match", 0, [match] + base + thr + cpu + [queries_file], "obikmermatch " + " ".join(base[2:] + thr + cpu) + " -r refs queries"))
+    return out
+
+
+def ks_event_of_run(ctx, origin, sc, selfmode, cmdline, r):
+    inputs = {"refs": sc["refs"], "queries": [[q["id"], q["s"]] for q in sc["queries"]]}
+    if r["timeout"] or r["rc"] != 0:
+        ctx.violation("X04.kmer.command_failed", origin, "%s: exit status %s%s on well-formed input files: %s" %
+                      (cmdline, r["rc"], " (timeout)" if r["timeout"] else "", r["err"][-600:]), {"cmdline": cmdline, "failed_command": 1, "inputs": inputs})
+        return None
+    try:
+        recs = parse_records(r["out"])
+    except ValueError as ex:
+        raise vlib.Inconclusive("cannot decode the output of %s: %s" % (cmdline, ex))
+    by = collections.defaultdict(list)
+    for rid, ann, seq, qual in recs:
+        by[rid].append((ann, seq))
+    if selfmode:
+        queries = [{"sc": "reference_itself", "id": "r%d" % (i + 1), "s": s, "self": i + 1} for i, s in enumerate(sc["refs"])]
+    else:
+        queries = [{"sc": q["sc"], "id": q["id"], "s": q["s"], "self": 0} for q in sc["queries"]]
+    ev = {"kind": "ks", "origin": origin, "cmdline": cmdline, "sc": sc["sc"], "refs": sc["refs"], "k": sc["k"], "sp": sc["sp"],
+          "mo": sc["mo"] if origin == "count" else -1, "minc": sc["minc"] if "-m" in cmdline.split() else 1, "w": sc["w"], "bits": 128,
+          "pan": 0, "panmsg": "", "rank": [], "selfmode": selfmode, "queries": []}
+    for q in queries:
+        qo = dict(q, ans=[], rans=[], nm=-1, ksize=-1, spk=-1, seen=len(by.get(q["id"], [])), pan=0, panmsg="", outs=[])
+        got = by.get(q["id"], [])
+        if origin == "count":
+            if got:
+                ann = got[0][0]
+                v = ann.get("obikmer_match_count")
+                qo["nm"] = v if isinstance(v, int) and not isinstance(v, bool) else -2
+                v = ann.get("obikmer_kmer_size")
+                qo["ksize"] = v if isinstance(v, int) and not isinstance(v, bool) else -2
+                v = ann.get("obikmer_sparse_kmer")
+                qo["spk"] = (1 if v else 0) if isinstance(v, bool) else -2
+        else:
+            for ann, seq in got:
+                mid = str(ann.get("obikmer_match_id", ""))
+                rev = 1 if mid.endswith("-rev") else 0
+                m = re.fullmatch(r"r(\d+)", mid[:-4] if rev else mid)
+                v = ann.get("obikmer_match_count")
+                al = ann.get("obikmer_ali_length")
+                qo["outs"].append({"mid": int(m.group(1)) if m and 1 <= int(m.group(1)) <= len(sc["refs"]) else 0, "rev": rev,
+                                   "orient": str(ann.get("obikmer_orientation", "")),
+                                   "mc": v if isinstance(v, int) and not isinstance(v, bool) else -2,
+                                   "ident1": 1 if ann.get("obikmer_identity") == 1 else 0,
+                                   "alen": al if isinstance(al, int) and not isinstance(al, bool) else -2, "seq": seq})
+        ev["queries"].append(qo)
+    stray = [rid for rid in by if rid not in {q["id"] for q in queries}]
+    if stray:
+        ctx.violation("X04.kmer.stray_record", origin, "%s writes records that are not queries: %s" % (cmdline, stray[:5]),
+                      {"cmdline": cmdline, "failed_command": 1, "inputs": inputs})
+    return ev
+
+
+def ks_command_events(ctx, bindir, nsets, maxlen):
     d = ctx.path("ksfiles")
     man = ctx.path("ksfiles.ndjson")
     ctx.harness(["record", "X04", "--out", man, "--n", nsets, "--opt", "part=ks", "--opt", "dir=" + d, "--opt", "maxlen=%d" % maxlen], timeout=300)
@@ -162,72 +250,33 @@ def ks_command_events(ctx, bindir, nsets, maxlen):
         raise vlib.Inconclusive("no input file was written for obikmersimcount")
     jobs, meta = [], []
     for k, st in enumerate(sets):
-        sc = st["scenario"]
-        base = ["-r", st["refs_file"], "-k", str(sc["k"])] + (["-S"] if sc["sp"] else [])
-        lim = ["-M", str(sc["mo"])] if sc["mo"] != -1 else []
-        thr = ["-m", str(sc["minc"])] if (sc["minc"] != 1 or k % 2) else []
-        cpu = ["--max-cpu", str(sc["w"])]
-        jobs.append({"argv": [count] + base + lim + thr + cpu + [st["queries_file"]]})
-        meta.append(("count", st, 0, "obikmersimcount " + " ".join(base[2:] + lim + thr + cpu) + " -r refs queries"))
-        jobs.append({"argv": [count] + base + lim + thr + cpu + ["--self"]})
-        meta.append(("count", st, 1, "obikmersimcount " + " ".join(base[2:] + lim + thr + cpu) + " -r refs --self"))
-        if sc["sc"] in ("family", "random"):
-            jobs.append({"argv": [match] + base + thr + cpu + [st["queries_file"]]})
-            meta.append(("match", st, 0, "obikmermatch " + " ".join(base[2:] + thr + cpu) + " -r refs queries"))
+        for origin, selfmode, argv, cmdline in ks_jobs(bindir, st["scenario"], st["refs_file"], st["queries_file"], k):
+            jobs.append({"argv": argv})
+            meta.append((origin, st["scenario"], selfmode, cmdline))
     res = ctx.run_many(jobs, timeout=180)
     evs = []
-    for (origin, st, selfmode, cmdline), r in zip(meta, res):
-        sc = st["scenario"]
-        inputs = {"refs": sc["refs"], "queries": [[q["id"], q["s"]] for q in sc["queries"]]}
-        if r["timeout"] or r["rc"] != 0:
-            ctx.violation("X04.kmer.command_failed", origin, "%s: exit status %s%s on well-formed input files: %s" %
-                          (cmdline, r["rc"], " (timeout)" if r["timeout"] else "", r["err"][-600:]), {"cmdline": cmdline, "inputs": inputs})
-            continue
-        try:
-            recs = parse_records(r["out"])
-        except ValueError as ex:
-            raise vlib.Inconclusive("cannot decode the output of %s: %s" % (cmdline, ex))
-        by = collections.defaultdict(list)
-        for rid, ann, seq, qual in recs:
-            by[rid].append((ann, seq))
-        if selfmode:
-            queries = [{"sc": "reference_itself", "id": "r%d" % (i + 1), "s": s, "self": i + 1} for i, s in enumerate(sc["refs"])]
-        else:
-            queries = [{"sc": q["sc"], "id": q["id"], "s": q["s"], "self": 0} for q in sc["queries"]]
-        ev = {"kind": "ks", "origin": origin, "cmdline": cmdline, "sc": sc["sc"], "refs": sc["refs"], "k": sc["k"], "sp": sc["sp"],
-              "mo": sc["mo"] if origin == "count" else -1, "minc": sc["minc"] if "-m" in cmdline.split() else 1, "w": sc["w"], "bits": 128,
-              "pan": 0, "panmsg": "", "rank": [], "selfmode": selfmode, "queries": []}
-        for q in queries:
-            qo = dict(q, ans=[], rans=[], nm=-1, ksize=-1, spk=-1, seen=len(by.get(q["id"], [])), pan=0, panmsg="", outs=[])
-            got = by.get(q["id"], [])
-            if origin == "count":
-                if got:
-                    ann = got[0][0]
-                    v = ann.get("obikmer_match_count")
-                    qo["nm"] = v if isinstance(v, int) and not isinstance(v, bool) else -2
-                    v = ann.get("obikmer_kmer_size")
-                    qo["ksize"] = v if isinstance(v, int) and not isinstance(v, bool) else -2
-                    v = ann.get("obikmer_sparse_kmer")
-                    qo["spk"] = (1 if v else 0) if isinstance(v, bool) else -2
-            else:
-                for ann, seq in got:
-                    mid = str(ann.get("obikmer_match_id", ""))
-                    rev = 1 if mid.endswith("-rev") else 0
-                    m = re.fullmatch(r"r(\d+)", mid[:-4] if rev else mid)
-                    v = ann.get("obikmer_match_count")
-                    al = ann.get("obikmer_ali_length")
-                    qo["outs"].append({"mid": int(m.group(1)) if m and 1 <= int(m.group(1)) <= len(sc["refs"]) else 0, "rev": rev,
-                                       "orient": str(ann.get("obikmer_orientation", "")),
-                                       "mc": v if isinstance(v, int) and not isinstance(v, bool) else -2,
-                                       "ident1": 1 if ann.get("obikmer_identity") == 1 else 0,
-                                       "alen": al if isinstance(al, int) and not isinstance(al, bool) else -2, "seq": seq})
-            ev["queries"].append(qo)
-        stray = [rid for rid in by if rid not in {q["id"] for q in queries}]
-        if stray:
-            ctx.violation("X04.kmer.stray_record", origin, "%s writes records that are not queries: %s" % (cmdline, stray[:5]),
-                          {"cmdline": cmdline, "inputs": inputs})
-        evs.append(ev)
+    for (origin, sc, selfmode, cmdline), r in zip(meta, res):
+        ev = ks_event_of_run(ctx, origin, sc, selfmode, cmdline, r)
+        if ev is not None:
+            evs.append(ev)
     return evs
+
+
+def ks_rerun(ctx, bindir, ev):
+    """the command of a recorded event, run again on files rebuilt from the event"""
+    rf, qf = ctx.path("one_refs.fasta"), ctx.path("one_queries.fasta")
+    open(rf, "w").write("".join(">r%d\n%s\n" % (i + 1, s) for i, s in enumerate(ev["refs"])))
+    qs = [q for q in ev["queries"] if not ev["selfmode"]]
+    open(qf, "w").write("".join(">%s\n%s\n" % (q["id"], q["s"]) for q in qs))
+    sc = {"sc": ev["sc"], "refs": ev["refs"], "k": ev["k"], "sp": ev["sp"], "mo": ev["mo"], "minc": ev["minc"], "w": ev["w"],
+          "queries": [{"sc": q["sc"], "id": q["id"], "s": q["s"]} for q in qs]}
+    exe = os.path.join(bindir, "obikmersimcount" if ev["origin"] == "count" else "obikmermatch")
+    argv = [exe, "-r", rf, "-k", str(ev["k"])] + (["-S"] if ev["sp"] else []) + (["-M", str(ev["mo"])] if ev["mo"] != -1 else []) + \
+           ["-m", str(ev["minc"]), "--max-cpu", str(ev["w"])] + (["--self"] if ev["selfmode"] else [qf])
+    cmdline = os.path.basename(exe) + " " + " ".join(argv[3:-1]) + (" -r refs --self" if ev["selfmode"] else " -r refs queries")
+    r = ctx.run_many([{"argv": argv}], timeout=180)[0]
+    out = ks_event_of_run(ctx, ev["origin"], sc, ev["selfmode"], cmdline, r)
+    return [out] if out is not None else []
 
 
 # ------------------------------------------------------------------ verdicts
@@ -318,12 +367,15 @@ def main(ctx):
                 one = ctx.path("one.ndjson")
                 vlib.write_ndjson(one, [case])
                 ctx.harness(["record", "X04", "--out", tr, "--opt", "part=" + part, "--opt", "replay=" + one])
-            else:
-                vlib.write_ndjson(tr, [case])
-                print("[check] an event decoded from a command output is re-judged as recorded; re-run the tier with VERIF_SEED=%s to run the command again" % blob.get("seed"))
+            else:                               # the real binary is run again on files rebuilt from the event
+                bindir = ctx.build_cmds(["obimicrosat", "obikmersimcount", "obikmermatch"])
+                evs = ms_rerun(ctx, bindir, case) if part == "ms" else ks_rerun(ctx, bindir, case)
+                if not evs:
+                    return ctx.finish()
+                vlib.write_ndjson(tr, evs)
             validate(ctx, part, tr, 600)
             return ctx.finish()
-        print("[check] this replay file describes a failed command: %s" % str(case)[:600])
+        print("[check] this replay file describes a failed command (re-run the tier with VERIF_SEED=%s to run it again): %s" % (blob.get("seed"), str(case)[:600]))
         ctx.violation(blob["assert"], blob["class"], blob["detail"], case)
         return ctx.finish()
 
@@ -360,12 +412,12 @@ def main(ctx):
     if not ctx.violations:
         for need in ("scan/none", "scan/found/direct", "scan/flank_too_short", "break/found/direct", "strand/found/reverse",
                      "strand/found/either_orientation", "wide/found/direct", "bits=64/asc", "bits=128/desc",
-                     "pair/plain/nolimit/other/nohit", "pair/sparse/limit/other/nohit", "triple/plain/limit/self/nohit"):
+                     "pair/plain/nolimit/other/nohit", "pair/sparse/nolimit/other/nohit", "triple/plain/limit/self/nohit"):
             ctx.expect_vacuity("replayed class " + need, ctx.classes.get(need, 0))
         ctx.expect_vacuity("replayed k-mer cases with a hit", sum(v for k, v in ctx.classes.items() if k.endswith("/hit")))
     # T ---------------------------------------------------------------------------------------
     bindir = ctx.build_cmds(["obimicrosat", "obikmersimcount", "obikmermatch"])
-    n_ms, n_ks, f_ms, per, f_ks, maxlen_ms, maxlen_ks = (9000, 700, 60, 60, 160, 300, 160) if thorough else (288, 36, 8, 32, 14, 120, 90)
+    n_ms, n_ks, f_ms, per, f_ks, maxlen_ms, maxlen_ks = (4000, 300, 40, 50, 100, 300, 160) if thorough else (288, 36, 8, 32, 14, 120, 90)
     mtrace = ctx.path("trace_ms.ndjson")
     ctx.harness(["record", "X04", "--out", mtrace, "--n", n_ms, "--opt", "part=ms", "--opt", "maxlen=%d" % maxlen_ms], timeout=900)
     with open(mtrace, "a") as f:
